@@ -60,7 +60,7 @@ CHECKS["C05"] = dict(
     entries=[
         dict(name="harness_c05_binop", quick={"kinds": 3, "gmax": 10, "gdmax": 2, "nmax_mul": 200, "dmax": 3, "divmax": 12, "gdivmax": 2}, thorough={"gmax": 30, "gdmax": 3, "nmax_mul": 1000, "dmax": 4, "divmax": 20, "gdivmax": 3}),
         dict(name="harness_c05_pow", quick={"kmax": 3, "pmax": 6, "gmax": 3, "gdmax": 2}, thorough={"kmax": 4, "pmax": 12, "gmax": 5, "gdmax": 2}),
-        dict(name="harness_c05_api", quick={}, thorough={}),
+        dict(name="harness_c05_api", quick={"apimax": 40}, thorough={"apimax": 300}),
     ],
     anchors=["SymEngine::Rational::from_mpq", "SymEngine::Rational::from_two_ints", "SymEngine::Complex::from_mpq", "SymEngine::Integer::divint", "SymEngine::Integer::pow_negint"],
     bounds="all 3x3 kind pairs x {add,sub,mul,div}: integers and rational numerators |n|<=2e9 for add/sub, <=1000 (30000) for mul/div, symbolic unnormalised denominators 1..3 (6) through from_two_ints; Gaussian rationals |n|<=12 (40), d<=2 (3); integer exponents -3..3 (5) on bases |n|<=10 (30); exact Z arithmetic (z3 Int)",
@@ -75,7 +75,7 @@ CHECKS["C06"] = dict(
         dict(name="harness_c06_api", quick={"nmax": 4, "dbl_table": 1}, thorough={"nmax": 30}),
     ],
     anchors=["SymEngine::Infty::add", "SymEngine::Infty::mul", "SymEngine::NaN::add", "SymEngine::NaN::mul", "SymEngine::RealDouble::add", "SymEngine::Integer::add", "SymEngine::Rational::add", "SymEngine::Complex::add"],
-    bounds="all 7x7 ordered kind pairs (Integer, Rational, Gaussian rational, RealDouble, ComplexDouble, {+oo,-oo,zoo}, nan); integer payloads |v|<=4 (30) in bit-vector mode, rational denominators 1..3, doubles: quick tier 8 representative values per component {0,-0,1,-2.5,1e300,inf,-inf,nan} (the property's finite pair table), thorough tier all 2^64 bit patterns per component; Number::add/mul/sub/div and add()/mul()",
+    bounds="all 7x7 ordered kind pairs (Integer, Rational, Gaussian rational, RealDouble, ComplexDouble, {+oo,-oo,zoo}, nan); integer payloads |v|<=4 (30) in bit-vector mode, rational denominators 1..3, doubles: quick tier 8 representative values per component (their exact partners then come from the table {-2,-1,0,1,3}, denominators 1..3); exact-exact and exact-infinity pairs symbolic in both tiers; {0,-0,1,-2.5,1e300,inf,-inf,nan} (the property's finite pair table), thorough tier all 2^64 bit patterns per component; Number::add/mul/sub/div and add()/mul()",
     outside=["pow between kinds", "multi-limb integers"],
 )
 
@@ -148,4 +148,16 @@ CHECKS["C32"] = dict(
     anchors=["SymEngine::gcd_ext", "SymEngine::quotient_mod_f", "SymEngine::mod_inverse", "SymEngine::crt", "SymEngine::nthroot_mod_list", "SymEngine::totient", "SymEngine::carmichael", "SymEngine::primitive_root", "SymEngine::jacobi", "SymEngine::kronecker", "SymEngine::fibonacci", "SymEngine::binomial", "SymEngine::nextprime", "SymEngine::mobius"],
     bounds="gcd/lcm/gcd_ext |a|,|b|<=10 (30) with a symbolic common-divisor candidate; quotient/mod both conventions |n|<=1000 (1e6) symbolic, 0<|d|<=12; mod_inverse, nthroot_mod(_list) (n<=4), is_nth_residue for m<=10 (24); crt with two moduli <=9; totient, carmichael, mobius, prime factors, multiplicative_order, primitive_root for n<=24 (60); Legendre/Jacobi/Kronecker, quadratic residues for n<=15 (35); Fibonacci/Lucas/factorial recurrences n<=31 (91), Pascal's rule incl. negative tops, nextprime/probab_prime_p up to 200; definitions evaluated by brute force in the harness",
     outside=["bernoulli, harmonic, factor_* heuristics (pollard, lehman), polygonal numbers, perfect-power decomposition, primepi, primorial, mertens", "large arguments"],
+)
+
+CHECKS["C24"] = dict(
+    src="C24.cpp", level="model_checking",
+    entries=[
+        dict(name="harness_c24_det_inv", quick={"n": 2, "B": 2, "nsym": 4}, thorough={"n": 3, "B": 2, "nsym": 3, "_wall": 1700}),
+        dict(name="harness_c24_factor", quick={"n": 2, "B": 2, "nsym": 4}, thorough={"n": 3, "B": 2, "nsym": 3, "_wall": 1700}),
+        dict(name="harness_c24_rank", quick={"B": 1}, thorough={"B": 2}),
+    ],
+    anchors=["SymEngine::det_bareis", "SymEngine::det_berkowitz", "SymEngine::inverse_fraction_free_LU", "SymEngine::inverse_gauss_jordan", "SymEngine::pivoted_LU", "SymEngine::fraction_free_LDU", "SymEngine::reduced_row_echelon_form", "SymEngine::LDL"],
+    bounds="quick: 2x2 matrices with 4 symbolic integer entries |a|<=2; thorough: 3x3 with 3 symbolic entries |a|<=2 and 6 entries enumerated from {0,1,-1,2}; determinants (bareis, berkowitz, det) against Leibniz, 4 inverse algorithms (A*B==I both ways), 3 solvers with symbolic right-hand sides, pivoted LU (P A == L U), LU, fraction-free LDU, LDL on symmetric inputs, transpose, sums; rank and rref of 2x3 matrices |a|<=1 (2) against minors",
+    outside=["QR and Cholesky (radical entries)", "characteristic polynomial", "Gaussian-rational entries", "sizes above 3x3"],
 )
